@@ -72,18 +72,72 @@ def gen_policy(rng, n=10, p_imm=0.6, p_never=0.1, p_limit=0.25, p_until=0.15, de
 ALL_IMM = Policy([])
 
 
+def warm_up(env, obs, sched, warmup, n_static, outputs):
+    """an EARLIER subscription of the same observable object(s), abandoned before the measured one
+    starts (as k2m.run_multi does): per-subscription state (queues, counters, writers tables, filter
+    indices) must start fresh.  warmup = dict(events=[(t, k, ev)], windows='all'|'none'|'first',
+    outputs=[g..]); the throw-away subscriber subscribes to the handed windows/groups it is told to
+    and everything it holds is disposed at the end.  Callbacks indexed by invocation register a reset
+    in env.resets."""
+    held = []
+    quiet = (lambda v: None, lambda e: None, lambda: None)
+    seen = [0]
+
+    def w_on_next(v):
+        if hasattr(v, "subscribe"):
+            seen[0] += 1
+            how = warmup.get("windows", "all")
+            if how == "all" or (how == "first" and seen[0] == 1):
+                held.append(v.subscribe(*quiet, scheduler=sched))
+    try:
+        w = None
+        if outputs:
+            for g in warmup.get("outputs", (0, 1)):
+                held.append(obs[g].subscribe(*quiet, scheduler=sched))
+        else:
+            w = obs.subscribe(w_on_next, quiet[1], quiet[2], scheduler=sched)
+        for (_, k, ev) in warmup.get("events", ()):
+            try:
+                if k < len(env.sources):
+                    env.sources[k].push(ev)
+            except Exception:
+                pass
+        if w is not None:
+            w.dispose()
+        for d in held:
+            d.dispose()
+    except Exception:
+        pass
+    del env.log[:]
+    del env.escapes[:]
+    env.sources = env.sources[:n_static]
+    for s in env.sources:
+        s.observers = [r for r in s.observers if r[1]]
+    env.timers.clear()
+    env.n_timers = 0
+    env.tag = 0
+    env.now = 0
+    for reset in getattr(env, "resets", ()):
+        reset()
+
+
 def run_win(build, n_static, events, policy=ALL_IMM, use_scheduler=False, dispose_at=None, horizon=None,
-            outputs=False, sub_outputs=None, max_inputs=400):
+            outputs=False, sub_outputs=None, max_inputs=400, warmup=None):
     """events: [(time_ms, k, ev)] source notifications (time non-decreasing).
     outputs mode: build returns a list of observables; sub_outputs = [(time_ms, 'sub'|'unsub', g)].
+    warmup: see warm_up (None = the measured subscription is the first one).
     Returns dict(log, inputs, escapes, env, n_windows)."""
     env = k2m.Env()
+    env.resets = []
     sched = k2m.make_scheduler(env) if use_scheduler else None
     statics = [env.new_source() for _ in range(n_static)]
     try:
         obs = build(env, [s.observable for s in statics])
     except Exception as e:
         return {"build_error": e, "env": env}
+    if warmup is not None:
+        warm_up(env, obs, sched, warmup, n_static, outputs)
+    k2.CURRENT_TAG[0] = 0
 
     windows = []            # g -> observable
     wsubs = {}              # g -> list of live disposables (in subscription order)
